@@ -225,6 +225,7 @@ class Ctx:
         self.exhaustive = None
         self.known = [k for k in load_known() if k.get("property") == pid]
         self.spec_runs = []
+        self.evidence_dir = "evidence"      # extras (coverage beyond the listed properties) write to evidence-extra
 
     # -- TLC bookkeeping
     def tlc(self, module, cfg, label=None, must_hold=True, **kw):
@@ -262,7 +263,7 @@ class Ctx:
 
     # -- finish: prints verdict lines, writes evidence, returns exit code
     def finish(self):
-        os.makedirs(os.path.join(VERIF, "evidence"), exist_ok=True)
+        os.makedirs(os.path.join(VERIF, self.evidence_dir), exist_ok=True)
         outdir = os.path.join(VERIF, "out", "replays")
         os.makedirs(outdir, exist_ok=True)
         known_keys = {k["key"]: k for k in self.known if k.get("status") == "known"}
@@ -320,7 +321,7 @@ class Ctx:
             "wall_s": round(time.time() - self.t0, 2),
             "violations": len(real),
         }
-        with open(os.path.join(VERIF, "evidence", self.pid + ".json"), "w") as f:
+        with open(os.path.join(VERIF, self.evidence_dir, self.pid + ".json"), "w") as f:
             json.dump(ev, f, indent=1, default=str)
         print("%s %s: %s  (TLC states=%d, impl cases=%d, nontrivial=%d, %.1fs)" % (
             self.pid, self.tier, "OK" if rc == 0 else "VIOLATED", self.states,
